@@ -125,6 +125,9 @@ fn nkw(name: &str, stored: bool, indexed: bool, fast: bool, nullable: bool) -> V
 /// 2: as 0 but the nested child object `r` is required (non-nullable).
 /// 3: as 0 plus a required, unstored, unindexed nested keyword `q`.
 /// 4: as 0 plus a fast-only (unstored) numeric field (compaction must refuse).
+/// 5: as 0 plus a fast-only numeric property `k2` of the nested object `c` (must refuse).
+/// 6: as 0 plus an indexed+fast unstored keyword `t2` of the nested-in-nested object `c.r` (must refuse).
+/// 7: as 0 plus an indexed-only unstored keyword `a2` of `c` (must refuse).
 pub fn schema_json(kind: u64) -> Value {
   let mut keywords = vec![kw("tag", true, true, true, true), kw("hid", false, false, false, true)];
   if kind == 1 {
@@ -141,8 +144,21 @@ pub fn schema_json(kind: u64) -> Value {
     nkw("a", true, true, true, true),
     json!({"type": "numeric", "name": "k", "i64": true, "fast": true, "stored": true, "nullable": true}),
     nkw("u", false, false, false, true),
-    json!({"type": "object", "name": "r", "nullable": kind != 2, "fields": [nkw("t", true, true, true, true)]}),
+    json!({"type": "object", "name": "r", "nullable": kind != 2, "fields": if kind == 6 {
+      // (c) nested-in-nested property that is indexed + fast but not stored
+      vec![nkw("t", true, true, true, true), nkw("t2", false, true, true, true)]
+    } else {
+      vec![nkw("t", true, true, true, true)]
+    }}),
   ];
+  if kind == 5 {
+    // (b) fast-only numeric property of a nested object
+    cprops.push(json!({"type": "numeric", "name": "k2", "i64": true, "fast": true, "stored": false, "nullable": true}));
+  }
+  if kind == 7 {
+    // (b') indexed-only (not fast) keyword property of a nested object
+    cprops.push(nkw("a2", false, true, false, true));
+  }
   if kind == 3 {
     cprops.push(nkw("q", false, false, false, false));
   }
@@ -229,7 +245,55 @@ fn gen_c_obj(rng: &mut Rng, kind: u64) -> Value {
   if kind == 3 {
     m.insert("q".into(), json!("req"));
   }
+  if kind == 5 && rng.chance(2, 3) {
+    m.insert("k2".into(), if rng.chance(1, 5) { Value::Null } else { json!(rng.below(6)) });
+  }
+  if kind == 7 && rng.chance(2, 3) {
+    m.insert("a2".into(), json!(*rng.pick(&AS)));
+  }
+  if kind == 6 {
+    // give the child objects of `r` a value for the unstored property
+    let mut add_t2 = |o: &mut Value| {
+      if o.is_object() && rng.chance(2, 3) {
+        o["t2"] = json!(*rng.pick(&TS));
+      }
+    };
+    match m.get_mut("r") {
+      Some(Value::Array(a)) => a.iter_mut().for_each(&mut add_t2),
+      Some(o) => add_t2(o),
+      None => {}
+    }
+  }
   Value::Object(m)
+}
+
+/// does the schema (repository schema JSON) have a field or nested property whose indexed/fast
+/// data is not stored?  (text: `indexed`; keyword: `indexed` or `fast`; numeric: always indexed)
+pub fn schema_has_unrebuildable_field(schema: &Value) -> bool {
+  fn unstored(f: &Value, kind: &str) -> bool {
+    let stored = f["stored"].as_bool().unwrap_or(false);
+    let indexed = match kind {
+      "numeric" => true,
+      _ => f["indexed"].as_bool().unwrap_or(false),
+    };
+    let fast = kind != "text" && f["fast"].as_bool().unwrap_or(false);
+    (indexed || fast) && !stored
+  }
+  fn nested(n: &Value) -> bool {
+    n["fields"].as_array().map(|fs| {
+      fs.iter().any(|f| match f["type"].as_str() {
+        Some("object") => nested(f),
+        Some(k) => unstored(f, k),
+        None => false,
+      })
+    }).unwrap_or(false)
+  }
+  let flat = |key: &str, kind: &str| schema[key].as_array().map(|a| a.iter().any(|f| unstored(f, kind))).unwrap_or(false);
+  flat("text_fields", "text")
+    || flat("keyword_fields", "keyword")
+    || flat("numeric_fields", "numeric")
+    || schema["nested_fields"].as_array().map(|a| a.iter().any(nested)).unwrap_or(false)
+    || schema["vector_fields"].as_array().map(|a| !a.is_empty()).unwrap_or(false)
 }
 
 /// a document valid for `schema_json(kind)`; `version` makes every generated version distinct
